@@ -207,7 +207,12 @@ func sprint(v interface{}) string { return fmt.Sprint(v) }
 
 // Monitor reads an engine monitor counter (e.g. "db-write-during-tx"). The native
 // run-time has no monitors and reports 0.
-func Monitor(name string) int { return 0 }
+func Monitor(name string) int {
+	if name == "dbcalls" {
+		return dbCallCount()
+	}
+	return 0
+}
 
 // AndB / OrB / NotB: boolean connectives that do not short-circuit, so oracle code
 // written with them does not fork the symbolic path. Natively plain &&, ||, !.
